@@ -4,7 +4,6 @@ from .ops_c14 import OPS
 
 PROP, BIN, RUNMOD, RUNFN = "C14", "c14", "RunC14", "run_C14"
 MODES = [True, False]
-LEVEL = "other"   # until the int->float rounding theorem is merged
 
 # format -> (float bits, mantissa digits p, emax)
 FMT = {"f32": (32, 24, 128), "f64": (64, 53, 1024)}
